@@ -270,7 +270,7 @@ def native_task(task):
             if bool(cond): held.append(n)
         except Exception:
             pass
-    res['canaries'] = len(w.canaries); res['canaries_held'] = held
+    res['canaries'] = len(w.canaries); res['canaries_held'] = held; res['canary_names'] = [n for n, _ in w.canaries]
     if sampled: res['leaves'] = dict(w.leaves)
     return res
 
@@ -398,7 +398,7 @@ def run_property(prop, tier='quick', jobs=None, seed=0, only=None, write_baselin
     bounded_evals = 0
     bounded_clauses = 0
     b_canaries = 0
-    b_canaries_held = []
+    b_canary_seen, b_canary_refuted = set(), set()
     native_exceptions = 0
     for (kind, ri, idx, job), res in zip(native_jobs, native_out):
         if kind == 'bounded':
@@ -409,8 +409,10 @@ def run_property(prop, tier='quick', jobs=None, seed=0, only=None, write_baselin
             bounded_evals += 1
             bounded_clauses += res.get('n_clauses', 0)
             b_canaries += res.get('canaries', 0)
-            for n in res.get('canaries_held', []):
-                b_canaries_held.append(f"{b['group']}/{b['cfg']['name']}/{n}")
+            for n in res.get('canary_names', []):
+                key = f"{b['group']}/{n}"
+                b_canary_seen.add(key)
+                if n not in res.get('canaries_held', []): b_canary_refuted.add(key)
             for n in res['failed']:
                 violations.append({'group': b['group'], 'cfg': b['cfg'], 'clause': n, 'how': 'bounded-runtime-contract',
                                    'values': job[2], 'tables': job[3], 'native': res, 'replayed': True,
@@ -578,7 +580,9 @@ def run_property(prop, tier='quick', jobs=None, seed=0, only=None, write_baselin
         'bounded': [{'group': gname, 'functions': g.functions, 'inputs': sum(1 for b in b_results if b['group'] == gname),
                      'rule': g.notes} for gname, g in groups.items() if g.mode == 'B'],
         'bounded_evaluations': bounded_evals, 'bounded_clause_evaluations': bounded_clauses,
-        'bounded_canaries': b_canaries, 'bounded_canaries_that_held': b_canaries_held[:20],
+        # mode B: a canary (deliberately wrong clause) counts as refuted when it is false in at least one configuration of its group
+        'bounded_canaries': len(b_canary_seen), 'bounded_canaries_refuted': len(b_canary_refuted),
+        'bounded_canaries_never_refuted': sorted(b_canary_seen - b_canary_refuted)[:20],
         'cross_checks_native_exception_without_symbolic_one': native_exceptions,
         'known_findings_reproduced': sorted(known_hits),
         'undecided': len(undecided),
